@@ -282,6 +282,30 @@ class Tr(gen_submit.Tr):
             except Exception as e:
                 out.append('⟨none, .unsupported "translator: %s"⟩' % type(e).__name__)
 
+    FORDER = [".setF .plen", ".advIn", ".setF .inlen", ".setF .status", ".setF .total"]
+
+    def reorder(self, out):
+        """adjacent field stores (and the advance of `incoming_buffer`) under the same guard, to different fields, whose
+        right-hand sides do not read the other's field, commute: bring them into the order of today's source"""
+        def info(t):
+            m = re.match(r"⟨(.*?), \.setF \.(\w+) (.*)⟩$", t)
+            if m:
+                return (m.group(1), m.group(2), set(re.findall(r"\.fld \.(\w+)", m.group(3))), ".setF ." + m.group(2))
+            m = re.match(r"⟨(.*?), \.advIn (.*)⟩$", t)
+            if m:
+                return (m.group(1), "inptr", set(re.findall(r"\.fld \.(\w+)", m.group(2))), ".advIn")
+            return None
+        changed = True
+        while changed:
+            changed = False
+            for i in range(len(out) - 1):
+                a, b = info(out[i]), info(out[i + 1])
+                if a and b and a[0] == b[0] and a[1] != b[1] and a[1] not in b[2] and b[1] not in a[2] and \
+                        a[3] in self.FORDER and b[3] in self.FORDER and self.FORDER.index(a[3]) > self.FORDER.index(b[3]):
+                    out[i], out[i + 1] = out[i + 1], out[i]
+                    changed = True
+        return out
+
     def for_bound(self, s):
         for c in kids(s):
             if c.get("kind") == "BinaryOperator" and c.get("opcode") == "<":
@@ -299,7 +323,7 @@ class Tr(gen_submit.Tr):
             return ['⟨none, .unsupported "loop condition"⟩']
         out = []
         self.walk(kids(wb), None, out)
-        return out
+        return self.reorder(out)
 
 
 def ctx_files(repo):
